@@ -148,7 +148,15 @@ def gen_cases(tier, seed):
                      ['write_window', 'eof', 'close_wait'],
                      ['write_window', 'settle', 'close_wait'],
                      ['write_window', 'write', 'close_wait'],
-                     ['write', 'close_wait']):
+                     ['write', 'close_wait'],
+                     # (the first packet is taken before the peer pauses
+                     # and its window comes back; the second fills it)
+                     ['write_window', 'settle', 'write_window',
+                      'close_wait'],
+                     ['write_window', 'settle', 'write_window', 'eof',
+                      'settle', 'close_wait'],
+                     ['write_window', 'settle', 'write_window', 'settle',
+                      'close_wait']):
             cases.append({'chans': [{'kind': kind, 'srv': 'stall_hold',
                                      'acts': acts, 'window': None,
                                      'pause': False}],
